@@ -458,6 +458,60 @@ def main():
         if len(ck.cov["samples"]) < 6:
             ck.sample(dict(lp=lp["name"], entry=entry, cfg=cfg, returned_basis=[cs, rs], exact_verdict=verdict, kkt=kkt, objval=v))
 
+    # ------------------------------------------------------------------ 2b. QSexact_solver warm-started from a caller's basis
+    # The caller's QSbasis is an in/out argument: whatever start it held, with OPTIMAL it must come back as an optimal basis.
+    # Starts: the optimal basis itself; the optimal basis with nonbasic boxed columns / ranged rows moved to their other bound
+    # (the dual simplex repairs those by bound flips, without a pivot); a random subset of those flips.
+    wcases, wmeta = [], {}
+    def boxed(l, u):
+        return l not in (INF, NINF) and u not in (INF, NINF) and F(l) != F(u)
+    for cid, (fo, cs, rs) in want2.items():
+        lp, entry, warm, cfg = rmeta[cid]
+        if cs == "-" or rs == "-":
+            continue
+        fc = [j for j, c in enumerate(lp["cols"]) if cs[j] in "02" and boxed(c[2], c[3])]
+        fr = [i for i, r in enumerate(lp["rows"]) if rs[i] in "02" and r[1] == "R" and F(r[3]) != 0]
+        flip = lambda st, idx: "".join(("2" if ch == "0" else "0") if k in idx else ch for k, ch in enumerate(st))
+        starts = [("same", cs, rs)]
+        if fc or fr:
+            starts.append(("flip-all", flip(cs, set(fc)), flip(rs, set(fr))))
+            sc_, sr_ = set(j for j in fc if rng.random() < 0.5), set(i for i in fr if rng.random() < 0.5)
+            if (sc_ or sr_) and (sc_, sr_) != (set(fc), set(fr)):
+                starts.append(("flip-some", flip(cs, sc_), flip(rs, sr_)))
+        for k, (what, c0, r0) in enumerate(starts):
+            for algo in "PD":
+                wid = "%s.w%d%s" % (cid, k, algo)
+                pp, dp, sc = cfg
+                wcases.append((wid, "\n".join(["CASE " + wid, lp_block(lp), "PARAM 0 %d" % pp, "PARAM 2 %d" % dp, "PARAM 7 %d" % sc, "SOLVE EXACT %s %s %s" % (algo, c0, r0),
+                                               "ACCESS", lp_block(lp), "BOPT KEPTE -"]) + "\n"))
+                wmeta[wid] = (lp, what, algo, c0, r0, cid)
+    _, wouts, wcr = run_cases("h_fac", wcases, per_case_timeout=15)
+    wscripts = dict(wcases)
+    ck.cov["crashes_seen"] += [dict(case=c, rc=rc) for c, rc, e in wcr]
+    nwarm = 0
+    for wid, toks in wouts.items():
+        fo = FacOut(toks)
+        lp, what, algo, c0, r0, cid = wmeta[wid]
+        sv = [t for t in fo.ops if t[0] == "SOLVE"]
+        eb = [t for t in fo.ops if t[0] == "EBASIS"]
+        bo = [t for t in fo.ops if t[0] == "BOPT"]
+        if not sv or not eb:
+            continue
+        rv, st = int(sv[0][2]), int(sv[0][3])
+        bump("exact-warm/%s/%s/%s" % (what, algo, STATUS.get(st, st) if rv == 0 else "rval!=0"))
+        if rv != 0 or st != 1:
+            ck.violation("exactwarm_status_%s.txt" % wid, wscripts[wid], "QSexact_solver (%s) warm-started from %s (%s %s) of an LP solved to OPTIMAL before: rval %d status %s" %
+                         (algo, what, c0, r0, rv, STATUS.get(st, st)), match=dict(kind="exact-warm-status", start=what))
+            continue
+        nwarm += 1
+        ck.count(("exact-warm", repr(lp["cols"]), repr(lp["rows"]), lp["max"], what, algo, c0, r0))
+        b1, b2 = eb[0][1], eb[0][2]
+        if not bo or verdict_c(bo[0]) != ("res", 1, "0"):
+            ck.violation("exactwarm_basis_%s.txt" % wid, wscripts[wid] + "# handed back: %s %s\n" % (b1, b2),
+                         "QSexact_solver (%s) warm-started from %s basis %s %s returned OPTIMAL but hands back basis %s %s, which QSexact_basis_optimalstatus does not confirm (%s)" %
+                         (algo, what, c0, r0, b1, b2, verdict_c(bo[0]) if bo else None), match=dict(kind="returned-not-optimal-basis", entry="EXACT-WARM"))
+    ck.cov["exact_warm_started_returns_checked"] = nwarm
+
     # ------------------------------------------------------------------ 3. verdict calls on an object with an edit history
     hl = small_lp_family(rng, 300 if T else 40) + [planted_lp(rng, rng.randint(2, 5), rng.randint(2, 6), "small", name="H%d" % i) for i in range(150 if T else 20)]
     hl = [lp for lp in hl if model_weight(lp) <= MODEL_WEIGHT_LIMIT]
